@@ -26,7 +26,7 @@ from . import common
 
 SPEC = {
     "lean": ["SnowModel.Props.C15", "SnowModel.Props.C15Bridge"],
-    "pins": ["Schedule", "Memorable", "MemoState"],
+    "pins": ["Schedule", "Memorable", "MemoState", "DateParse"],
     "harness": "harness.c15",
     "technique": "Lean 4 theorems over a declarative RFC 5545 subset (calendar round trips, sorted/sound/complete occurrence enumeration, rruleset algebra, keyword wiring) + pins of the keyword wiring regenerated from the AST + three-way differential (plugin / Lean model / dateutil built directly from the keywords)",
     "level_text": "Machine-checked proofs about the model of the recurrence (proleptic Gregorian calendar round trips; occurrences strictly increasing, sound and complete w.r.t. the declarative `occursDay`/time-set predicate for every rule and bound; count = prefix; include/exclude = sorted de-duplicated set algebra; every keyword reaches the same-named rrule argument, normalised from the same-named parameter), tied to Schedule.py by a pinned wiring table with bridging lemmas and by differential runs of CalendarRule and end-to-end recipes against the model and against an independent dateutil construction.",
@@ -342,14 +342,18 @@ def run_recipe_case(case):
 
 def build_direct(s, variant=frozenset()):
     """dateutil objects straight from the keywords.  `variant` switches on reproductions of known
-    (or repaired) defects: 'weekno' (byweekno := bysecond; D13, repaired — kept as a regression probe), 'utc' (date-valued until/include/exclude at UTC,
-    datetime-string until re-labelled UTC), 'untiltime' (datetime-object until keeps only its date)."""
+    repaired defects, kept as regression probes so that a relapse is reported under its recorded
+    signature: 'weekno' (byweekno := bysecond; D13), 'utc' (date-valued until/include/exclude at UTC,
+    datetime-string until re-labelled UTC; D21), 'untiltime' (datetime-object until keeps only its
+    date; D35)."""
     from dateutil import rrule as R
 
     p = s["p"]
     st = start_aware(p["start"])
     kw = {"freq": getattr(R, p["freq"]), "dtstart": st, "wkst": R.SU}
     if p.get("interval") is not None:
+        if isinstance(p["interval"], bool) or not isinstance(p["interval"], int) or p["interval"] < 1:
+            raise ValueError("an interval below 1 describes no recurrence")
         kw["interval"] = p["interval"]
     if p.get("count") is not None:
         kw["count"] = p["count"]
@@ -542,11 +546,44 @@ def same(a, b, horizon):
     return xa == xb
 
 
+def sets_with_bad_interval(s):
+    out = []
+    iv = s["p"].get("interval")
+    if iv is not None and iv < 1:
+        out.append(s)
+    for key in ("include", "exclude"):
+        for it in s.get(key) or []:
+            if it["k"] == "set":
+                out += sets_with_bad_interval(it["set"])
+    return out
+
+
+def accepts_bad_interval(case):
+    """An interval below 1 describes no recurrence (dateutil would loop forever): *constructing*
+    the rule must already fail.  Construction alone never loops, so this is not a timing test."""
+    from snowfakery.standard_plugins.Schedule import CalendarRule
+
+    for s in sets_with_bad_interval(case["set"]):
+        flat = {"p": s["p"]}
+        try:
+            CalendarRule(**plugin_kwargs(flat))
+        except Exception:  # noqa
+            continue
+        return True
+    return False
+
+
 def evaluate_case(case):
     """Runs in a worker process: the plugin, the direct construction, and the classification."""
     signal.signal(signal.SIGALRM, _alarm)
     horizon = horizon_of(case)
     res = {"horizon": horizon}
+    if sets_with_bad_interval(case["set"]) and accepts_bad_interval(case):
+        res["real"] = {"outcome": "timeout", "out": [], "error": "a CalendarRule with interval < 1 was constructed (not iterated: it would not return)"}
+        res["direct"] = {"outcome": "error", "out": [], "error": "an interval below 1 describes no recurrence"}
+        res["oracle"] = "fail"
+        res["sigs"] = ["C15:nonpositive-interval-accepted"]
+        return res
     signal.alarm(case.get("timeout", 3))
     try:
         if case["kind"] == "recipe":
@@ -681,6 +718,8 @@ def check_cases(cases, rep):
         for k in INT_KEYS + ["byweekday", "until", "count"]:
             if p.get(k) is not None:
                 rep.count("uses:" + k)
+        if p.get("interval") is not None and p["interval"] < 1:
+            rep.count("uses:interval<1")
         if case["set"].get("include"):
             rep.count("uses:include")
         if case["set"].get("exclude"):
@@ -710,10 +749,6 @@ def check_cases(cases, rep):
             eq = same(blur_ties(real, ties), blur_ties(m_plugin, ties), res["horizon"])
             if eq is False and ties and via_next and is_date_precision(p["start"]):
                 eq = None  # the date of a tied instant depends on which zone was emitted
-            if eq is False and v1.get("outcome") == "naiveDatetime" and real["outcome"] != "error":
-                # rruleset raises the naive/aware TypeError lazily, at the first comparison; with
-                # nothing to compare against there is no error.  The model does not predict laziness.
-                eq = None
             if eq is None:
                 rep.count("model-vs-code:inconclusive")
             else:
@@ -803,7 +838,9 @@ def gen_params(rng, sub_ok=True, clean=False):
     p = {"freq": freq, "start": st, "lf": rng.choice([0, 1, 1, 2])}
     if rng.random() < 0.1:
         p["freq_lower"] = True
-    if rng.random() < 0.5:
+    if rng.random() < 0.03:
+        p["interval"] = rng.choice([0, 0, -1, -3])  # rejected by the interval guard (no hang)
+    elif rng.random() < 0.5:
         p["interval"] = rng.choice([1, 2, 2, 3, 4, 5, 7, 12, 13, 90] if sub else [1, 2, 2, 3, 4, 5, 7, 12])
     if rng.random() < 0.25:
         p["bymonth"] = some(rng, list(range(1, 13)), 3)
@@ -920,7 +957,7 @@ def all_bounded(s):
 
 
 def gen_case(rng, kind):
-    clean = rng.random() < 0.55
+    clean = rng.random() < 0.2  # UTC-only, date-valued arguments only
     if kind == "rule":
         s = gen_set(rng, clean=clean)
         return {"kind": "rule", "mode": rng.choice(["next", "for_each"]), "set": s}
@@ -1040,6 +1077,9 @@ def doc_cases():
         out.append({"kind": "recipe", "mode": "next", "n": 10, "set": ev("MINUTELY", dt, byminute=[1, 2, 3])})
         out.append({"kind": "recipe", "mode": "next", "n": 10, "set": ev("SECONDLY", dt, bysecond=[1, 2, 3])})
         out.append({"kind": "recipe", "mode": "next", "n": 5, "set": ev("WEEKLY", da, interval=3)})
+    # the interval guard (fix 66ecebf): 0 and negative values are recipe errors, not hangs
+    for iv in (0, -1):
+        out.append({"kind": "recipe", "mode": "next", "n": 3, "set": ev("DAILY", {"k": "date", "ymd": [2024, 3, 1]}, interval=iv)})
     return out
 
 
